@@ -339,6 +339,39 @@ func scPKI(r *Run) {
 		mark(lrec)
 		r.CountFault("cert-unnested-validity", 1)
 	}
+	// forged intermediates: signed with a key of the attacker's own, but NAMING a trusted root as parent; the
+	// leaf under it is signed correctly with the forged intermediate's key.  Only the intermediate-to-root
+	// signature stands between this chain and acceptance.
+	for q := 0; q < r.Intn("cfg", 3) && len(roots) > 0; q++ {
+		rt := roots[r.Intn("forged", len(roots))]
+		ak := keys.GenerateNewSigningKeyPair()
+		atkRoot, err := certs.SelfSignRoot(&certs.Identity{PublicKey: ak.Public, Names: []certs.Name{certs.RawStringName("attacker-root")}}, ak)
+		must(err)
+		must(atkRoot.ProvideKey((*[32]byte)(&ak.Private)))
+		atkRec := newRec(fmt.Sprintf("attacker-root%d", q), marshal(atkRoot), nil)
+		allRecs = append(allRecs, atkRec)
+		ik := keys.GenerateNewSigningKeyPair()
+		now := time.Now()
+		y, err := certs.VerifIssueForged(atkRoot, rt.obj, &certs.Identity{PublicKey: ik.Public, Names: []certs.Name{certs.RawStringName("forged-int")}}, certs.Intermediate, now, now.Add(300*24*time.Hour))
+		if err != nil {
+			continue
+		}
+		certs.VerifSetKey(y, (*[32]byte)(&ik.Private))
+		yrec := newRec(fmt.Sprintf("forged-int-naming-%s", rt.rec.name), marshal(y), atkRec)
+		allRecs = append(allRecs, yrec)
+		inters = append(inters, &pkiNode{yrec, y})
+		mark(yrec)
+		lk := newX25519()
+		l, err := certs.VerifIssue(y, &certs.Identity{PublicKey: lk.Public, Names: []certs.Name{drawName("names")}}, certs.Leaf, now, 100*24*time.Hour)
+		if err != nil {
+			continue
+		}
+		lrec := newRec(fmt.Sprintf("leaf-under-%s", yrec.name), marshal(l), yrec)
+		allRecs = append(allRecs, lrec)
+		leaves = append(leaves, &pkiNode{lrec, l})
+		mark(lrec)
+		r.CountFault("cert-forged-intermediate-naming-trusted-root", 1)
+	}
 	if len(leaves) == 0 {
 		return
 	}
@@ -366,6 +399,74 @@ func scPKI(r *Run) {
 		walk = append(walk[:i], walk[i+1:]...)
 	}
 	walk = append([]time.Time{start}, walk...)
+
+	// long-lived trust stores that many queries share (a server keeps one store for all its handshakes):
+	// built certificate by certificate, or loaded from a PEM bundle the way LoadRootStoreFromPEMFile does
+	type liveStore struct {
+		st     *certs.Store
+		stored []*certRec
+		how    string
+	}
+	var liveStores []*liveStore
+	for q := 0; q < r.Intn("cfg", 3); q++ {
+		ls := &liveStore{st: new(certs.Store), how: "AddCertificate"}
+		var pick []*certRec
+		for _, rt := range roots {
+			if r.Intn("live", 3) != 0 {
+				pick = append(pick, rt.rec)
+			}
+		}
+		for _, in := range inters {
+			if r.Intn("live", 2) == 0 {
+				pick = append(pick, in.rec)
+			}
+		}
+		// (bundle order matters to a reader that reuses buffers: shuffle)
+		for i := len(pick) - 1; i > 0; i-- {
+			j := r.Intn("live", i+1)
+			pick[i], pick[j] = pick[j], pick[i]
+		}
+		if r.Intn("live", 2) == 0 {
+			ls.how = "PEM bundle"
+			var bundle []byte
+			ok := true
+			for _, c := range pick {
+				if c.obj == nil {
+					ok = false
+					break
+				}
+				pemBytes, err := certs.EncodeCertificateToPEM(c.obj)
+				if err != nil {
+					ok = false
+					break
+				}
+				bundle = append(bundle, pemBytes...)
+				if r.Intn("live", 3) == 0 {
+					bundle = append(bundle, []byte("# a comment between two certificates\n")...)
+				}
+			}
+			if !ok {
+				continue
+			}
+			cs, err := certs.ReadManyCertificatesPEM(bytes.NewReader(bundle))
+			if err != nil || len(cs) != len(pick) {
+				r.Violate("C04/nofault/bundle-not-read-back", "a PEM bundle of %d certificates written by EncodeCertificateToPEM was read back as %d certificates (%v)", len(pick), len(cs), err)
+				return
+			}
+			for i := range cs {
+				ls.st.AddCertificate(&cs[i])
+			}
+			r.CountFault("store-from-pem-bundle", 1)
+		} else {
+			for _, c := range pick {
+				if c.obj != nil {
+					ls.st.AddCertificate(c.obj)
+				}
+			}
+		}
+		ls.stored = pick
+		liveStores = append(liveStores, ls)
+	}
 
 	nQ := 0
 	for _, at := range walk {
@@ -401,6 +502,12 @@ func scPKI(r *Run) {
 			if r.Intn("store", 6) == 0 {
 				add(leaves[r.Intn("store", len(leaves))].rec)
 			}
+			useLive := len(liveStores) > 0 && r.Intn("q", 3) == 0
+			if useLive {
+				ls := liveStores[r.Intn("q", len(liveStores))]
+				store, stored = *ls.st, append([]*certRec(nil), ls.stored...)
+				r.CountFault("query-on-long-lived-store", 1)
+			}
 			leaf := leaves[r.Intn("q", len(leaves))].rec
 			var presented *certRec
 			switch r.Intn("q", 4) {
@@ -426,7 +533,7 @@ func scPKI(r *Run) {
 				}
 			case 2:
 				// a mutated root placed in the store
-				if len(roots) > 0 {
+				if len(roots) > 0 && !useLive {
 					m := roots[r.Intn("q", len(roots))].rec.mutate(r, allRecs)
 					add(m)
 					r.CountFault("cert-mutation/stored-root", 1)
@@ -551,6 +658,15 @@ func scPKI(r *Run) {
 					r.Violate("C04/valid-chain-rejected", "VerifyLeaf rejected a chain the model holds valid (%v): %s", got, desc)
 				}
 				return
+			}
+			// the same question again (an attacker retries, two handshakes present the same chain): same answer
+			for rep := 0; rep < r.Intn("q", 3); rep++ {
+				r.Obligation(1)
+				if again := store.VerifyLeaf(leaf.obj, opts); (again == nil) != (got == nil) {
+					r.Violate("C04/answer-changes-on-repetition", "VerifyLeaf answered %v the first time and %v on repetition %d of the same question on the same store (model: valid=%v, %s): leaf %s (%s), presented %s, store %s",
+						got, again, rep+1, want, why, leaf.name, leaf.mutation, recName(presented), recNames(stored))
+					return
+				}
 			}
 			// VerifyParent directly
 			if r.Intn("q", 3) == 0 {
